@@ -101,12 +101,18 @@ class MasterProbe(ecell.Impl):
 
         def walk(label, alloc, path):
             allocs[(label, tuple(path))] = {'reserved': [int(x) for x in alloc.reserved], 'rank': int(alloc.rank),
-                                            'adj': int(alloc.rank_adjustment), 'has_traits': bool(int(alloc.traits))}
+                                            'adj': int(alloc.rank_adjustment), 'has_traits': bool(int(alloc.traits)),
+                                            'trait_bits': bin(int(alloc.traits)).count('1')}
             for n, sub in alloc.sub_allocations.items():
                 walk(label, sub, path + [self.part_ids[n]])
         for label, part in self.cell.partitions.items():
             walk(self.label_ids[label], part.allocation, [])
         snap['allocs'] = allocs
+        for name, srv in self.cell.members().items():
+            snap['servers'][self.srv_ids[name]]['up_since'] = srv.up_since
+        for name, app in self.cell.apps.items():
+            # Application.traits adds the allocation's traits to the instance's own
+            snap['apps'][self.app_ids[name]]['own_traits'] = int(app._traits)
         return snap
 
     def __enter__(self):
@@ -238,13 +244,19 @@ def declared(w, probe):
     data = _rec(w, '/allocations') or []
     out['allocs'] = {}
     assignments = []
+    known_traits = set(_rec(w, '/traits') or [])
+    for n2 in cell.members():
+        r2 = _rec(w, '/servers/' + n2)
+        if isinstance(r2, dict):
+            known_traits |= set(r2.get('traits') or [])
     for obj in data:
         label = probe.label_ids[obj.get('partition')]
         path = tuple(probe.part_ids[p] for p in re.split('[/:]', obj['name']))
         out['allocs'][(label, path)] = {
             'reserved': [int(str(obj.get('memory', '0M')).rstrip('M')), int(str(obj.get('cpu', '0%')).rstrip('%')),
                          int(str(obj.get('disk', '0M')).rstrip('M'))],
-            'rank': int(obj['rank']), 'has_traits': bool(obj.get('traits'))}
+            'rank': int(obj['rank']),
+            'trait_bits': len({t for t in (obj.get('traits') or []) if t in known_traits})}
         if obj.get('rank_adjustment') is not None:
             out['allocs'][(label, path)]['adj'] = int(obj['rank_adjustment'])
         for asg in obj.get('assignments', []):
@@ -274,13 +286,17 @@ def declared(w, probe):
             'label': probe.label_ids[rec.get('partition') or '_default'],
             'has_traits': bool(rec.get('traits')),
             'parent': rec.get('parent')}
+        if rec.get('up_since') is not None:
+            out['servers'][probe.srv_ids[name]]['up_since'] = rec['up_since']
     return out
 
 
 # which property's statement speaks of which declared attribute
-FIELD_OWNER = {'demand': 'C01', 'cap': 'C01', 'limits': 'C04', 'aff': 'C04', 'group': 'C05', 'prio': 'C06',
-               'alloc': 'C06', 'alloc_reserved': 'C06', 'alloc_rank': 'C06', 'alloc_adj': 'C06', 'alloc_has_traits': 'C03',
-               'label': 'C03', 'lease': 'C03', 'has_traits': 'C03', 'once': 'C07', 'drt': 'C08'}
+FIELD_OWNER = {'demand': ('C01',), 'cap': ('C01',), 'limits': ('C04',), 'aff': ('C04',), 'group': ('C05',),
+               'prio': ('C06',), 'alloc': ('C03', 'C06'), 'alloc_reserved': ('C06',), 'alloc_rank': ('C06',),
+               'alloc_adj': ('C06',), 'alloc_has_traits': ('C03', 'C07'), 'alloc_trait_bits': ('C03', 'C07'),
+               'up_since': ('C02', 'C03'),
+               'label': ('C03',), 'lease': ('C03',), 'has_traits': ('C03',), 'once': ('C07',), 'drt': ('C08',)}
 
 
 def apply_declared(trace, probe):
@@ -301,7 +317,7 @@ def apply_declared(trace, probe):
                 eff = {'alloc': (ap['label'], tuple(ap['alloc_path'] or ())),
                        'demand': ap['demand'], 'limits': ap['limits'], 'aff': aff_name.get(ap['aff']),
                        'group': grp_name.get(ap['group']) if ap['group'] is not None else None, 'once': ap['once'],
-                       'lease': ap['lease'], 'drt': ap['drt'], 'has_traits': bool(ap['traits'])}
+                       'lease': ap['lease'], 'drt': ap['drt'], 'has_traits': bool(ap.get('own_traits', ap['traits']))}
                 eff['prio'] = ap['prio']
                 for f, v in d.items():
                     if eff.get(f) != v:
@@ -310,9 +326,9 @@ def apply_declared(trace, probe):
                 sv = snap['servers'].get(sid)
                 if sv is None:
                     continue
-                eff = {'cap': sv['cap'], 'label': sv['label'], 'has_traits': bool(sv['traits'])}
-                for f in ('cap', 'label', 'has_traits'):
-                    if eff[f] != d[f]:
+                eff = {'cap': sv['cap'], 'label': sv['label'], 'has_traits': bool(sv['traits']), 'up_since': sv.get('up_since')}
+                for f in ('cap', 'label', 'has_traits', 'up_since'):
+                    if f in d and eff[f] != d[f]:
                         mism.append((f, 'server %d: %s is %r in the scheduler, its record declares %r' % (sid, f, eff[f], d[f])))
             for pos, d in dec.get('allocs', {}).items():
                 al = snap.get('allocs', {}).get(pos)
